@@ -74,6 +74,11 @@ func (v VList) Value() (driver.Value, error) {
 	return "", nil
 }
 
+// VArr is an array type that is its own driver.Valuer (like a [16]byte UUID): one bound value.
+type VArr [2]string
+
+func (v VArr) Value() (driver.Value, error) { return v[0] + "," + v[1], nil }
+
 // GValuer implements gorm.Valuer: rendered as an SQL expression with its own argument.
 type GValuer struct{ Inner interface{} }
 
@@ -149,8 +154,13 @@ func (g *gen) newLeaf(col, kind string) *leaf {
 		l.val = sql.NullInt64{Int64: int64(intBase + s), Valid: true}
 	case "custom":
 		l.val = CustomVal{S: str}
+	case "varr":
+		l.val = VArr{str, "x"}
 	case "vlist":
 		l.val = VList{str}
+	case "pvlist":
+		v := VList{str}
+		l.val = &v
 	case "vlistempty":
 		backing := make([]string, 0, 1)
 		vlistReg.Store(unsafe.SliceData(backing), str)
@@ -414,7 +424,14 @@ func (g *gen) namedCond() cond {
 			ls = append(ls, l2...)
 			continue
 		}
-		l := g.newLeaf(col, core.Pick(g.r, []string{"string", "int", "float", "time", "bytes", "pstring", "nullstring", "custom"}))
+		if g.r.Chance(1, 8) {
+			// a named argument that is present and nil is bound as NULL (one placeholder, one value)
+			names[name] = nil
+			parts = append(parts, col+" = @"+name)
+			g.n++
+			continue
+		}
+		l := g.newLeaf(col, core.Pick(g.r, []string{"string", "int", "float", "time", "bytes", "pstring", "nullstring", "custom", "vlist", "varr"}))
 		names[name] = l.val
 		parts = append(parts, col+" = @"+name)
 		ls = append(ls, l)
@@ -457,7 +474,7 @@ func (g *gen) mapCond() cond {
 		default:
 			// a []byte map value is a slice for BuildCondition (IN over its bytes): the
 			// statement lets slices expand per element, so byte slices are not used here
-			l := g.newLeaf(col, core.Pick(g.r, []string{"string", "int", "int64", "uint", "float", "time", "pstring", "pint", "nullstring", "nullint", "custom", "gvaluer", "expr"}))
+			l := g.newLeaf(col, core.Pick(g.r, []string{"string", "int", "int64", "uint", "float", "time", "pstring", "pint", "nullstring", "nullint", "custom", "gvaluer", "expr", "vlist", "vlistempty", "varr", "pvlist"}))
 			m[col] = l.val
 			ls = append(ls, l)
 		}
